@@ -191,6 +191,11 @@ def run_selftest(prop, seed=0):
             if hit:
                 out["mutants_detected"] += 1
                 out["detected"].append({"id": m["id"], "fired": hit[:3]})
+            elif any("defined after the rules were written" in e for e in errors):
+                # the edited code relies on definitions the rules do not know (a refactored-then-broken variant): the check
+                # fails closed (exit 2) instead of naming a violation — counted apart, not as a miss
+                out["fail_closed"] = out.get("fail_closed", 0) + 1
+                out.setdefault("fail_closed_ids", []).append(m["id"])
             else:
                 out["misses"].append(f"mutant {m['id']} expected {want}, got new={new[:4]} errors={[e[:80] for e in errors[:1]]}")
     out["detected"] = out["detected"][:40]
